@@ -190,6 +190,36 @@ lex_ident_len(const int *c)
 	return len;
 }
 
+/* ------------------------------------------------------------------ 6.4.9 comments
+ * c[0] is the character AFTER the '/' that may open a comment.
+ *   c[0] == '/' :  "//" introduces a comment that includes all characters up to, BUT NOT INCLUDING, the next new-line
+ *                  (6.4.9p2).  lex_linecomment_end = index of that new-line (or of the end of file).
+ *   c[0] == '*' :  "/" "*" introduces a comment that ends with the first following "*" "/" (6.4.9p1); the '*' of the
+ *                  opener is not part of a terminator ("/" "*" "/" is not a complete comment).  lex_blockcomment_end = index
+ *                  of the '/' of the terminator, 0 if the comment is not terminated inside the window.
+ * 5.1.1.2p1(3): each comment is replaced by one space character.
+ */
+#define LEX_CMAX 16
+static inline int
+lex_linecomment_end(const int *c)
+{
+#define LEX_LCSTEP(i) if (c[i] == '\n' || c[i] == LEX_EOF) return (i);
+	LEX_LCSTEP(1) LEX_LCSTEP(2) LEX_LCSTEP(3) LEX_LCSTEP(4) LEX_LCSTEP(5) LEX_LCSTEP(6) LEX_LCSTEP(7) LEX_LCSTEP(8)
+	LEX_LCSTEP(9) LEX_LCSTEP(10) LEX_LCSTEP(11) LEX_LCSTEP(12) LEX_LCSTEP(13) LEX_LCSTEP(14) LEX_LCSTEP(15)
+#undef LEX_LCSTEP
+	return LEX_CMAX;
+}
+
+static inline int
+lex_blockcomment_end(const int *c)
+{
+#define LEX_BCSTEP(i) if (c[(i) - 1] == '*' && c[i] == '/') return (i);
+	LEX_BCSTEP(2) LEX_BCSTEP(3) LEX_BCSTEP(4) LEX_BCSTEP(5) LEX_BCSTEP(6) LEX_BCSTEP(7) LEX_BCSTEP(8)
+	LEX_BCSTEP(9) LEX_BCSTEP(10) LEX_BCSTEP(11) LEX_BCSTEP(12) LEX_BCSTEP(13) LEX_BCSTEP(14) LEX_BCSTEP(15)
+#undef LEX_BCSTEP
+	return 0;
+}
+
 /* ------------------------------------------------------------------ 6.4.4.4 / 6.4.5 encoding prefixes
  * character-constant: ' L' u' U'   (C23 N2418, implemented per /repo/doc/c23.md: u8')
  * string-literal:     " u8" u" U" L"
